@@ -258,7 +258,8 @@ check("C17", "model_checking",
       "Complete enumeration on the real EventManager: every registration list of <=3 handlers over 10 language-set "
       "forms (list/str/set, incl. a str 'javascript' that must not match 'java' by substring, the empty set which matches no "
       "language, and the omitted argument = any language) x 8 return values x "
-      "writes-out_data, through register and register_list, x 3 event languages; two-kind/unknown-kind products; "
+      "writes-out_data, through register and register_list, x 3 event languages; two-kind/unknown-kind products; lists of 3 registrations made from two callables "
+      "with at least one callable registered twice; "
       "thorough adds all 4-handler lists over a reduced return set. Every notify is compared with a 15-line dispatch "
       "model: which handlers ran in which order, the in_data each saw, final out_data, combined return. Plus the real "
       "default table: invocation order = registration order filtered by language for every kind x language.",
